@@ -86,6 +86,8 @@ func init() {
 	add("C10", "C10.recorded (a block signature is recorded only for a member of the validator-set of the block's round — not for any peer of the repertoire; see C09.record).", sharedAs(c09record, map[string]string{"C09.record": "C10.recorded"}))
 	add("C11", "C11.norefusal (Hashgraph.Bootstrap returns only errors its callees returned: it makes no acceptance decision of its own about the database it replays).", as1(noRefusalRule, "C11.norefusal"))
 	add("C01", "C01.accepted (the accepted receipts of a block are applied in the block's own order, each by the operation of its type, straight in the loop over the receipts — not regrouped in a map: the resulting validator-set, whose order is hashed, is the same on every node; see C10.accepted).", sharedAs(c10accepted, map[string]string{"C10.accepted": "C01.accepted"}))
+	add("C13", "C13.consensusevents (every event of every processed round is recorded as a consensus event, payload or not: the roots of later frames for silent creators come from this record; shared with C03.consensusevents).", as1(consensusEventsRule, "C13.consensusevents"))
+	add("C03", "C03.consensusevents (see C13.consensusevents), C03.index (block numbers are read from the store for every block, not carried in a counter across the rounds of a pass; see C02.index).", as1(consensusEventsRule, "C03.consensusevents"), sharedAs(c02index, map[string]string{"C02.index": "C03.index"}))
 	add("C01", "C01.mapcut (see C03.mapcut).", as(mapCutRule, "C01.mapcut", consensusFuncs))
 	add("C13", "C13.mapcut (see C03.mapcut, for the functions that build a frame).", as(mapCutRule, "C13.mapcut", frameFuncs))
 }
@@ -1908,4 +1910,70 @@ func noRefusalRule(p *Prog, r *Report, rule string) {
 		}
 	}
 	r.Check(ok && n > 0, rule, "Bootstrap:errors-come-from-callees", p.pos(fn.Pos()), fnName(fn), "no refusal of its own", why)
+}
+
+/* ---------- C13.consensusevents (seed C13i) ---------- */
+
+// consensusEventsRule: ProcessDecidedRounds records EVERY event of every processed round as a consensus event
+// (Store.AddConsensusEvent in a total loop over frame.Events), whether or not the round yields a block. The roots of later
+// frames for creators that have gone silent are taken from this record (LastConsensusEventFrom); a round left out of it
+// gives every later frame a stale root — the same on all full nodes, so the hashes verify — and a node that is reset from such
+// a frame is sent the missing events again and receives them in a later round.
+func consensusEventsRule(p *Prog, r *Report, rule string) {
+	r.Rule(rule, 1, "ProcessDecidedRounds calls Store.AddConsensusEvent for every event of every processed frame, under no condition on the round's payload")
+	fn := p.Func(HG, "Hashgraph", "ProcessDecidedRounds")
+	if fn == nil {
+		r.Anchor(rule, "hashgraph.(*Hashgraph).ProcessDecidedRounds")
+		return
+	}
+	loops := naturalLoops(fn)
+	n := 0
+	for _, c := range callsIn(fn, storeM("AddConsensusEvent")) {
+		n++
+		lp := innermostLoop(loops, c.Block())
+		ok, why := true, ""
+		if lp == nil {
+			ok, why = false, "AddConsensusEvent is not called in a loop over the frame's events"
+		} else {
+			src, _ := loopSourceOf(fn, lp)
+			if src == nil || !flowsFromField(src, "Events") {
+				ok, why = false, "the loop around AddConsensusEvent does not range over frame.Events"
+			}
+			if bad := p.skippedIteration(lp, []ssa.Instruction{c}); bad != "" {
+				ok, why = false, "in the loop over the frame's events "+bad
+			}
+			// conditions between the frame and the loop: only the error tests, the Decided flag and the emptiness of the frame
+			for _, l := range p.Facts(fn).At(lp.head) {
+				if _, _, isNilT := nilTest(l); isNilT {
+					continue
+				}
+				if depOnField(l.V, "Decided") {
+					continue
+				}
+				allowed := false
+				if bo, isB := l.V.(*ssa.BinOp); isB {
+					for _, side := range []ssa.Value{bo.X, bo.Y} {
+						if lv, isLen := isLenOf(unwrap(side)); isLen && flowsFromField(lv, "Events") {
+							allowed = true
+						}
+					}
+				}
+				// the range conditions of the enclosing loop over the pending rounds
+				if in, isIn := l.V.(ssa.Instruction); isIn {
+					for _, ol := range loops {
+						if ol != lp && ol.body[lp.head] && in.Block() == ol.head {
+							allowed = true
+						}
+					}
+				}
+				if !allowed {
+					ok, why = false, "the loop that records consensus events runs only under the condition at "+p.ipos(l.V.(ssa.Instruction))+" (not an error test, the round's Decided flag or the emptiness of the frame): the events of some processed rounds are not recorded"
+				}
+			}
+		}
+		r.Check(ok, rule, "ProcessDecidedRounds:every-frame-event-recorded", p.ipos(c), fnName(fn), "every event of every processed frame is recorded as a consensus event", why)
+	}
+	if n == 0 {
+		r.Fail(rule, "ProcessDecidedRounds:AddConsensusEvent", p.pos(fn.Pos()), fnName(fn), "ProcessDecidedRounds does not call Store.AddConsensusEvent")
+	}
 }
